@@ -334,8 +334,14 @@ class BaseClientHandler:
                 f"{imap_command.tag} BAD Unhandled exception: "
                 f"{response_text(e)}"
             )
+            # The exception is re-raised and our caller drops the connection:
+            # tell the client so, rather than leaving it with a dead session.
+            #
             try:
-                await self.client.push(result.strip() + "\r\n")
+                await self.client.push(
+                    "* BYE Internal server error, closing connection\r\n",
+                    result.strip() + "\r\n",
+                )
             except Exception:
                 pass
             raise
